@@ -15,8 +15,11 @@ def run_case(c):
         torch.manual_seed(c['seed'])
         E, H = c['E'], c['H']
         kw = dict(embed_dim=E, num_heads=H, bias=c['bias'], add_bias_kv=c['bkv'], add_zero_attn=c['zattn'], kdim=c['kdim'], vdim=c['vdim'], batch_first=c['bf'])
-        t = nn.MultiheadAttention(dropout=0.0, **kw)
-        d = DPMultiheadAttention(dropout=0.0, **kw)
+        t = nn.MultiheadAttention(dropout=c.get('dropout', 0.0), **kw)
+        d = DPMultiheadAttention(dropout=c.get('dropout', 0.0), **kw)
+        if c.get('dropout', 0.0) > 0:
+            t.eval()
+            d.eval()          # attention dropout must be off in eval mode, as in torch
         with torch.no_grad():
             for p in t.parameters():
                 p.copy_(torch.randn(p.shape) * 0.5)
